@@ -429,6 +429,20 @@ def oracle(case: dict) -> dict:
     return {"comp": comp, "comps": cl, "degree": degree, "bridge": bridge, "node_centrality": node_cen, "kept": kept}
 
 
+def cluster_definitions(n, lab, orc):
+    groups: dict = {}
+    for i in range(n):
+        groups.setdefault(lab[i], []).append(i)
+    out = {}
+    for cid, members in groups.items():
+        k, inside = len(members), set(members)
+        e = sum(1 for a, b in orc["kept"] if a in inside and b in inside)
+        mx = max(orc["degree"][i] for i in members)
+        out[cid] = {"members": members, "k": k, "e": e, "density": (2.0 * e) / (k * (k - 1)) if k > 1 else None,
+                    "centralisation": sum(mx - orc["degree"][i] for i in members) / ((k - 1) * (k - 2)) if k > 2 else None}
+    return out
+
+
 def hypotheses(case: dict, r: dict | None, orc: dict) -> str | None:
     """Reason why the case lies outside the property's quantifier / hypotheses, else None."""
     kept = orc["kept"]
@@ -443,9 +457,10 @@ def hypotheses(case: dict, r: dict | None, orc: dict) -> str | None:
             return "clustering does not cover the records"
         comp = orc["comp"]
         n = len(comp)
-        ok = all((lab[a] == lab[b]) == (comp[a] == comp[b]) for a in range(n) for b in range(a + 1, n)) if n <= 400 else True
-        if not ok:
-            return "clustering is not the connected components of the thresholded graph"
+        # a clustering that SPLITS a component (an edge of the thresholded graph between two clusters) gives metrics no definition
+        # covers; unions of components (the clustering was made at a lower threshold) are clusterings of that graph
+        if any(lab[a] != lab[b] for a, b in kept):
+            return "clustering splits a connected component of the thresholded graph"
     return None
 
 
@@ -462,8 +477,10 @@ def oracle_verdict(case: dict, r: dict, orc: dict) -> str | None:
             return f"node row carries a wrong cluster_id: node {i} got {cl_id} expected {lab[i]}"
         if deg != orc["degree"][i]:
             return f"node_degree differs from the number of incident edges: node {i} got {deg} expected {orc['degree'][i]}"
-        if not core.close(cen, orc["node_centrality"][i], rel=1e-9):
-            return f"node_centrality differs from degree/(size-1): node {i} got {cen} expected {orc['node_centrality'][i]}"
+        size = sum(1 for x in lab if x == lab[i])
+        want_cen = orc["degree"][i] / (size - 1) if size > 1 else 0.0
+        if not core.close(cen, want_cen, rel=1e-9):
+            return f"node_centrality differs from degree/(size-1): node {i} got {cen} expected {want_cen}"
     # edges: one row per kept edge
     got = sorted((a, b) for a, b, _ in r["edges"])
     if got != sorted(orc["kept"]):
@@ -471,10 +488,9 @@ def oracle_verdict(case: dict, r: dict, orc: dict) -> str | None:
     for a, b, f in r["edges"]:
         if f is not orc["bridge"][(a, b)]:
             return f"is_bridge differs from 'removing the edge disconnects its endpoints': edge ({a},{b}) got {f} expected {orc['bridge'][(a, b)]}"
-    # clusters: one row per cluster
-    want = {}
-    for c in orc["comps"]:
-        want[lab[c["members"][0]]] = c
+    # clusters: one row per cluster OF THE CLUSTERING HANDED OVER (the components of the thresholded graph, or - metrics asked for at a
+    # higher threshold than the clustering's - unions of them): size, edges inside, density and centralisation by definition
+    want = cluster_definitions(n, lab, orc)
     got_ids = [t[0] for t in r["clusters"]]
     if sorted(got_ids) != sorted(want):
         return f"cluster table does not have one row per cluster: got {sorted(got_ids)[:20]} expected {sorted(want)[:20]}"
@@ -693,6 +709,10 @@ def gen_cases(ctx: core.Ctx) -> list[dict]:
             cases.append(explicit_threshold_variant(rng, cases[-1]))
         if len(cases) % 7 == 0:
             cases.append(fine_threshold_variant(rng, cases[-1]))
+        if len(cases) % 4 == 0:
+            v = coarser_clustering_variant(rng, cases[-1])
+            if v is not None:
+                cases.append(v)
     # (4) size thresholds inside the code (chunk / batch sizes as module-level constants) scaled down to 2 or 3, so that these small
     # graphs lie beyond them; only when the anchored modules HAVE such constants (the pinned tree has none: then nothing is added)
     from harness import impl
@@ -1098,6 +1118,23 @@ def explicit_threshold_variant(rng, base):
             c["edges"].append((a, b, rng.choice(weak)) if rng.random() < 0.5 else (b, a, rng.choice(weak)))
     c["thr_cluster"], c["thr"] = tc, t
     c["tag"] = base["tag"] + "+explicit_thr"
+    c["shuffle"] = rng.randrange(1 << 30)
+    return c
+
+
+def coarser_clustering_variant(rng, base):
+    """The documented two-step use: cluster at t_c, then ask for the metrics of the graph at a HIGHER explicit threshold t.  The clusters
+    are then unions of components of the thresholded graph; a cluster of several records may keep no edge at all (density 0)."""
+    if "thr_cluster" in base or (base.get("opts") or {}).get("thr_form"):
+        return None
+    tc = base["thr"]
+    higher = sorted({p for _, _, p in base["edges"] if p > tc})
+    if not higher:
+        return None
+    c = json.loads(json.dumps(base))
+    c["edges"] = [tuple(e) for e in c["edges"]]
+    c["thr_cluster"], c["thr"] = tc, rng.choice(higher)
+    c["tag"] = base["tag"] + "+coarser_clustering"
     c["shuffle"] = rng.randrange(1 << 30)
     return c
 
